@@ -52,6 +52,11 @@ FAMILY = [
     ("class", None, None, "<p>${'<'} ${name}</p>", "PageTemplate", "PageTextTemplate"),
     ("class_module", None, None, '<p tal:content="hello">x</p>', "PageTemplate", "Alt:PageTemplate"),
     ("filename", "a.pt", "b.pt", "<p>${1/0}</p>", "PageTemplate", "PageTemplate"),
+    # (the extension is part of the name that error reports give)
+    ("filename", "a.pt", "a.txt", "<p>${1/0}</p>", "PageTemplate", "PageTemplate"),
+    ("filename", "v1/a.pt", "v1/a.pt.orig", "<p>${1/0}</p>", "PageTemplate", "PageTemplate"),
+    # body and class name, one after the other, spell the same text
+    ("body_class_boundary", "<p>${name}</p>chameleo", "<p>${name}</p>", None, "Alt2:PageTemplate", "PageTemplate"),
     # the same file name with the same content in two directories (a
     # template copied from one skin to another): the path is compiled in
     ("directory", "d0", "d1", "<p>${name}${1/0}</p>", "PageTemplateFile", "PageTemplateFile"),
@@ -217,19 +222,39 @@ class QuoteExpr:
 
 
 class Greet:
-    """``greet:expr`` - a configured *instance* as expression type.  Its
-    representation is what ``object.__repr__`` gives, with one address for
-    all: two of them stand for the different objects that two processes
-    have at the same address (no process ever gets both)."""
+    """``greet:expr`` - a configured *instance* as expression type; its
+    representation is what ``object.__repr__`` gives.  The simulator decides
+    where such an object is: at ``GREET_ADDR`` whenever the one that was
+    there is gone (and at each start of a process), so that a second one
+    regularly comes to be where the first one was - as it does, erratically,
+    in CPython."""
 
     def __init__(self, word):
+        import weakref
         self.word = word
+        holder = _GREET_AT[0]
+        if holder is None or holder() is None:
+            _GREET_AT[0] = weakref.ref(self)
+            self.addr = GREET_ADDR
+        else:
+            self.addr = id(self)
 
     def __repr__(self):
-        return "<sim.checks.c15.Greet object at 0x7f3eadee3830>"
+        return "<sim.checks.c15.Greet object at 0x%x>" % self.addr
 
     def __call__(self, expression):
         return QuoteExpr(self.word, "", expression)
+
+
+GREET_ADDR = 0x7f3eadee3830
+_GREET_AT: list = [None]
+
+
+def sim_id(obj):
+    """``id`` as chameleon.zpt.template sees it."""
+    if type(obj) is Greet:
+        return obj.addr
+    return id(obj)
 
 
 EXT_VERSION = ["1.0"]      # version of the add-on the running process has
@@ -311,6 +336,7 @@ class C15(CheckBase):
         builtins._verif_gb = _verif_gb      # type: ignore[attr-defined]
         from chameleon.zpt import template as zt
         self.zt = zt
+        zt.id = sim_id      # type: ignore[attr-defined]
         self._ensure_alt()
         # fixed warm-up run so that lazily filled process-wide caches do
         # not change the number of events of the first counted run
@@ -331,6 +357,9 @@ class C15(CheckBase):
                        {"default_expression": "string",
                         "__module__": "verif_alt_package.pagetemplate"})
             self._alt = Alt
+            # one whose module's name ends as chameleon's begins
+            self._alt2 = type("PageTemplate", (self.zt.PageTemplate,),
+                              {"__module__": "n.zpt.template"})
 
     def budget(self, tier: str) -> dict:
         b = super().budget(tier)
@@ -341,12 +370,15 @@ class C15(CheckBase):
         self._tokens = getattr(self, "_tokens", 0) + 1
         if hasattr(self.zt, "_PROCESS_TOKEN"):
             self.zt._PROCESS_TOKEN = "%032x" % self._tokens
+        _GREET_AT[0] = None     # (a new address space)
 
     # -- building templates ----------------------------------------------------
     def _cls(self, name: str):
         zt = self.zt
         if name == "Alt:PageTemplate":
             return self._alt
+        if name == "Alt2:PageTemplate":
+            return self._alt2
         return getattr(zt, name)
 
     def _config(self, spec: dict) -> dict:
@@ -552,7 +584,7 @@ class C15(CheckBase):
             # differs in exactly one input
             if ch.coin(0.3):
                 common["trim_attribute_space"] = True
-            if name == "body_near":
+            if name in ("body_near", "body_class_boundary"):
                 ta = {"cls": ca, "body": va, "config": dict(common)}
                 tb = {"cls": cb, "body": vb, "config": dict(common)}
             elif name == "body":
@@ -562,7 +594,8 @@ class C15(CheckBase):
             else:
                 ta = {"cls": ca, "body": body, "config": dict(common)}
                 tb = {"cls": cb, "body": body, "config": dict(common)}
-                if name not in ("class", "class_module", "body_near"):
+                if name not in ("class", "class_module", "body_near",
+                                "body_class_boundary"):
                     # None means "option not passed at all"
                     if va is not None:
                         ta["config"][name] = va
@@ -574,7 +607,7 @@ class C15(CheckBase):
                     t_["file"] = "index.pt"
                     t_["dir"] = d_
             if name not in ("class", "class_module", "filename",
-                            "directory") and \
+                            "directory", "body_class_boundary") and \
                     ch.coin(0.35) and not any(
                         0xD800 <= ord(c_) <= 0xDFFF
                         for c_ in ta["body"] + tb["body"]):
@@ -596,7 +629,7 @@ class C15(CheckBase):
             case["templates"] = [ta, tb]
             mode = ch.pick(["same", "restart", "two"], "mode")
             if name in ("process_builtins", "package_version",
-                        "package_version_late", "expression_types_instance"):
+                        "package_version_late"):
                 mode = "restart"    # (one snapshot / installation per process)
             # a live instance is given the other configuration (attribute
             # assignment, then write(body)): possible when both are string
@@ -614,6 +647,11 @@ class C15(CheckBase):
             case["mode"] = mode
             full = [["construct", 0], ["render", 0], ["construct", 1],
                     ["render", 1], ["render", 0]]
+            if name == "expression_types_instance":
+                # (no process ever has both: the second one comes to be
+                # where the first one was)
+                full = [["construct", 0], ["render", 0], ["drop", 0],
+                        ["construct", 1], ["render", 1]]
             if mode == "same":
                 case["phases"] = [{"procs": [{"name": "A", "ops": full}],
                                    "sched": {"kind": "fifo"}}]
@@ -630,8 +668,14 @@ class C15(CheckBase):
                 case["phases"] = [
                     {"procs": [{"name": "A", "ops": full[:2]}],
                      "sched": {"kind": "fifo"}},
-                    {"procs": [{"name": "B", "ops": full[2:4] if name ==
-                                "expression_types_instance" else full[2:]}],
+                    {"procs": [{"name": "B", "ops": full[2:]}],
+                     "sched": {"kind": "fifo"}}]
+            elif name == "expression_types_instance":
+                case["phases"] = [
+                    {"procs": [{"name": "A", "ops": full[:2]},
+                               {"name": "B", "ops": full[3:]}],
+                     "sched": self._gen_sched(ch, 2, 60)},
+                    {"procs": [{"name": "C", "ops": full}],
                      "sched": {"kind": "fifo"}}]
             else:
                 case["phases"] = [
@@ -1059,7 +1103,12 @@ class C15(CheckBase):
                     for op, tid in pd["ops"]:
                         fired_before = sum(world.fired.values())
                         try:
-                            if op == "reconf" and tid not in mine:
+                            if op == "drop":
+                                mine.pop(tid, None)
+                                import gc
+                                gc.collect()
+                                r = ["ok"]
+                            elif op == "reconf" and tid not in mine:
                                 r = ["skipped"]
                             elif op == "reconf":
                                 used.add(1 - tid)
@@ -1114,7 +1163,7 @@ class C15(CheckBase):
                     op_results.append([t.name, op, tid, r[:2], faulted])
                     log.add("op", t.name, op, tid, canonical(r)[:300],
                             faulted)
-                    if r == ["crashed"]:
+                    if r == ["crashed"] or op == "drop":
                         continue
                     ref = refs[tid][0] if (op == "construct" or
                                            refs[tid][0] != ["ok"]) \
